@@ -32,4 +32,10 @@ MUTANTS = [
       "    out = []\n    for c in CallstackFlag:\n        if c.value & flags:\n            out.append(c)\n    return out"),
     N("C11", "list() around the class", DY, "return [r for r in RtldFlag if r.value & flags]", "return [r for r in list(RtldFlag) if r.value & flags]"),
     N("C11", "ioctl field via mask then shift", B, "length = (self.request >> 16) & 0x1fff", "length = (self.request & 0x1fff0000) >> 16"),
+    F("C11", "AST_NONE shown whenever no declared reason matched", "trace_handlers/mach.py",
+      "    if not flags:\n        return [AsynchronousSystemTrapsReason.AST_NONE]\n    else:\n        return [r for r in AsynchronousSystemTrapsReason if r.value & flags]",
+      "    reasons = [r for r in AsynchronousSystemTrapsReason if r.value & flags]\n    return reasons or [AsynchronousSystemTrapsReason.AST_NONE]", "R8"),
+    N("C11", "zero test spelled flags == 0", "trace_handlers/mach.py",
+      "    if not flags:\n        return [AsynchronousSystemTrapsReason.AST_NONE]\n    else:\n        return [r for r in AsynchronousSystemTrapsReason if r.value & flags]",
+      "    if flags == 0:\n        return [AsynchronousSystemTrapsReason.AST_NONE]\n    reasons = []\n    for r in AsynchronousSystemTrapsReason:\n        if not r.value & flags:\n            continue\n        reasons.append(r)\n    return reasons"),
 ]
